@@ -62,6 +62,21 @@ def main(tier, replay=None):
                     stats_all.append(probe + ": " + s2)
                     nbad += PC.evaluate(c, h2, m2, "c09", probe, exe, ["-probes", probe], counters)
                     nhist += len(h2)
+            # the pending set seen from the restore side (directed scenario 200 of harness/cmd/c08, which has the removal /
+            # restore machinery): a wallet restored while a known unconfirmed transaction spends one of its coins
+            outs8, err8 = V.go_build(["c08"])
+            if outs8 is None:
+                raise RuntimeError("harness cmd/c08 no longer builds against /repo: " + err8[-1500:])
+            rc8, o8, e8 = V.sh([outs8[0], "-scenario", "200"], timeout=300)
+            lo = [l for l in o8.splitlines() if l.startswith("C lateowner")]
+            if rc8 != 0 or not lo or any(l.startswith("X ") for l in o8.splitlines()):
+                raise RuntimeError("the restore-while-pending scenario (cmd/c08 -scenario 200) did not run: " + (o8 + e8)[-800:])
+            stats_all.append("restore-while-pending: " + lo[0])
+            nhist += 1
+            for l in o8.splitlines():
+                if l.startswith("V "):
+                    f8 = l.split(" ", 2)
+                    c.violation(f8[1], f8[2], {"rerun": "/verif/build/bin/c08 -scenario 200", "lines": o8.splitlines()[-60:]})
     except RuntimeError as ex:
         return c.finish(TRUSTED, no_input_break=str(ex))
     brk = None
